@@ -62,6 +62,46 @@ def float_order_sensitive(pipe):
     return pipe["matching_cost"]["matching_cost_method"] == "zncc" and "aggregation" in pipe
 
 
+def depth_scene(rng):
+    """two regions of different depth and disturbed spots (seed C13-5): every line is a permutation of distinct
+    radiometries, so matches are unambiguous; columns < bnd have true disparity d1, columns beyond have d2 << d1; at each
+    spot p (in the first region) the left pixel is disturbed so that wta gives it disparity 0, cross-checking invalidates
+    it (|0 + (-d1)| > 1), and the only right pixel that points back at it sits at p + d2.  A crop of the first region
+    never sees a valid disparity near d2: whatever the step derives from "the disparities present in the map" differs
+    between the crop and the whole image."""
+    nprng = np.random.default_rng(rng.randrange(1 << 30))
+    rows = rng.choice([5, 6, 8])
+    cols = rng.choice([96, 110, 120])
+    bnd = rng.choice([64, 72, 80])
+    d1 = rng.choice([-2, -2, -3])
+    d2 = d1 - rng.choice([3, 4])
+    lo, hi = d2, rng.choice([1, 2])
+    line_l = (10 * nprng.permutation(cols) + 100).astype(np.int64)
+    line_r = (10 * nprng.permutation(cols) + 5000).astype(np.int64)  # matches nothing
+    line_r[0:bnd] = line_l[-d1:bnd - d1]
+    line_r[bnd:cols + d2] = line_l[bnd - d2:cols]
+    spots = []
+    p = rng.randrange(24, 30)
+    while p < bnd - 26:
+        b = line_l[p - d1]
+        line_r[p + d1] = line_l[p + d1 - 1] + 4  # the right pixel that matched left p no longer does
+        line_l[p] = b + 1                        # left p: closest right value at disparity 0
+        line_r[p + d2] = b + 3                   # right p + d2: closest left value is left p (right disparity -d2)
+        spots.append(p)
+        p += rng.randrange(14, 22)
+    imgs = []
+    for side, line, with_disp in (("L", line_l, True), ("R", line_r, False)):
+        ds = xr.Dataset({"im": (["row", "col"], np.tile(line, (rows, 1)).astype(np.float32))},
+                        coords={"row": np.arange(rows), "col": np.arange(cols)})
+        if with_disp:
+            d = np.stack([np.full((rows, cols), lo, dtype=np.float32), np.full((rows, cols), hi, dtype=np.float32)])
+            ds["disparity"] = xr.DataArray(d, dims=["band_disp", "row", "col"], coords={"band_disp": ["min", "max"]})
+        ds.attrs = {"no_data_img": -9999, "valid_pixels": 0, "no_data_mask": 1, "crs": None, "transform": None,
+                    "disparity_source": [int(lo), int(hi)] if with_disp else None, "side": side}
+        imgs.append(ds)
+    return imgs[0], imgs[1], rows, cols, lo, hi, bnd, spots
+
+
 HYPS = {"left": 0}
 
 
@@ -111,6 +151,13 @@ def run_whole_and_crops(ctx, report, gs, label, wide=False, force=None, tall=Fal
             pipe["refinement"] = {"refinement_method": rng.choice(["vfit", "quadratic"])}
         rr = rc = (w - 1) // 2
         cross = False
+    elif force == "depth_regions":
+        left, right, rows, cols, lo, hi, bnd, spots = depth_scene(rng)
+        pipe = {"matching_cost": {"matching_cost_method": "sad", "window_size": 1, "subpix": 1},
+                "disparity": {"disparity_method": "wta", "invalid_disparity": rng.choice([-9999, "NaN"])},
+                "validation": {"validation_method": "cross_checking_accurate", "cross_checking_threshold": 1.0}}
+        rr = rc = 0
+        cross = True
     elif wide:
         # a strip several internal processing blocks long (100 / 50 pixels) with a large no-data area: a tile starting
         # past the area must give the same values as the whole strip
@@ -187,6 +234,11 @@ def run_whole_and_crops(ctx, report, gs, label, wide=False, force=None, tall=Fal
             r0 = rng.choice([rows - 20, rows - 27, rows - 34, 40])
         c0 = rng.choice([0, 0, 1, 2, 3, 4]) if not wide else rng.choice([104, 108, 112, 117, 60])
         c1 = rng.choice([cols, cols, cols - 1, cols - 2, cols - 3])
+        if force == "depth_regions":
+            # crops of the first region only (the region of the other depth stays outside)
+            r0, r1 = 0, rows
+            c0 = rng.choice([0, 6, 13])
+            c1 = bnd - rng.choice([10, 14, 19])
         if r1 - r0 < 2 * rr + 3 or c1 - c0 < 2 * rc + 3 + (ext_hi - ext_lo):
             continue
         keep = rng.random() < 0.5
@@ -198,7 +250,7 @@ def run_whole_and_crops(ctx, report, gs, label, wide=False, force=None, tall=Fal
             continue
         crop = pl.products(c_l)
         n_crops += 1
-        if ctx.lean is not None and not wide and not tall and modelled(pipe) and HYPS["left"] > 0:
+        if ctx.lean is not None and not wide and not tall and force != "depth_regions" and modelled(pipe) and HYPS["left"] > 0:
             eval_hypotheses(ctx, report, case, left, right, cl, cr, pipe, r0, c0)
         for r in range(r0, r1):
             for c in range(c0, c1):
@@ -578,6 +630,10 @@ def run(ctx, report, status):
         report.count("tall_12bit_zncc")
 
 
+    for i in range(ctx.n(4, 30)):
+        gs = ctx.rng.randrange(1 << 30)
+        run_whole_and_crops(ctx, report, gs, f"gen_seed={gs},depth_regions", force="depth_regions")
+        report.count("depth_regions_with_disturbed_spots")
     # the composed run of the step models (Model/PipelineRun.lean) against the real pandora.run, stage by stage
     for i in range(ctx.n(16, 160)):
         gs = ctx.rng.randrange(1 << 30)
@@ -592,6 +648,11 @@ def search(ctx, report, status):
     for _ in range(60):
         gs = ctx.rng.randrange(1 << 30)
         run_whole_and_crops(ctx, sub, gs, f"gen_seed={gs}")
+        if sub.failures:
+            return sub.failures[0]
+    for _ in range(6):
+        gs = ctx.rng.randrange(1 << 30)
+        run_whole_and_crops(ctx, sub, gs, f"gen_seed={gs},depth_regions", force="depth_regions")
         if sub.failures:
             return sub.failures[0]
     for _ in range(6):
@@ -616,7 +677,7 @@ def replay(ctx, report, path):
         print("replayed: disagreements=%d" % len(report.disagreements))
         return 0 if ok else 1
     run_whole_and_crops(ctx, report, gs, case["label"], wide=case["label"].endswith(",wide"), tall=case["label"].endswith(",tall"),
-                        force="cbca_mask" if case["label"].endswith(",cbca_mask") else None)
+                        force="cbca_mask" if case["label"].endswith(",cbca_mask") else ("depth_regions" if case["label"].endswith(",depth_regions") else None))
     for fl in report.failures:
         print("spec failure:", fl["clause"], fl["trigger"], json.dumps(fl["case"], default=str)[:300], fl["impl"])
     print("replayed: failures=%d" % len(report.failures))
